@@ -949,6 +949,25 @@ def c12(tr, cx):
             if not ok: tr.v('C12', 'on_duty_count', (k, s['t'], nid, on, before, after, isb, s['evnode'], s['evtype']))
             if nd['c'] != (after if (isb and s['evnode'] == nid and s['evtype'] == 'shift_change') else nd['c']):
                 tr.v('C12', 'node_c_after_shift', (k, s['t'], nid, nd['c'], after))
+    # the date of every shift change / slot is the declared one: offset + boundary + (whole cycles) * cycle length, evaluated
+    # exactly (Fractions of the declared floats). One float formula is within ~2 ulp of it whatever the order of operations;
+    # dates built by repeated addition drift by hundreds of ulps after some thousand cycles (pinned long_nondyadic_*, soak runs)
+    from fractions import Fraction
+    for k, s in enumerate(tr.snaps):
+        if s['evtype'] not in ('shift_change', 'slotted_service') or not s['evnode'] or isinstance(s['t'], Decimal): continue
+        nid = s['evnode']; cls, kind = nk(spec, nid)
+        if kind not in ('schedule', 'slotted'): continue
+        sv = spec['nodes'][nid - 1]['servers']
+        bounds = [Fraction(float(b)) for b in (sv['ends'] if kind == 'schedule' else sv['slots'])]
+        off, cyc, t = Fraction(float(sv['offset'])), bounds[-1], Fraction(float(s['t']))
+        if cyc <= 0: continue
+        kc = (t - off) // cyc
+        cands = [off + b + j * cyc for j in (kc - 1, kc, kc + 1) if j >= 0 for b in bounds] + [off]
+        d = min(abs(t - c) for c in cands)
+        tr.count('C12.boundary_dates_checked')
+        if d > 8 * Fraction(math.ulp(float(s['t']))):
+            tr.v('C12', 'shift_or_slot_date_drifts_from_timetable', (k, s['t'], nid, s['evtype'], float(d / Fraction(math.ulp(float(s['t']))))))
+            break
     # documented order of simultaneous events at one node: slotted service, shift change, end of service, class change, renege
     rank = {'slotted_service': 0, 'shift_change': 1, 'end_service': 2, 'class_change': 3, 'renege': 4}
     last_at = {}
